@@ -124,6 +124,21 @@ def c17 : List String → String
         if out.getLast? != some 10 then "unterminated:" ++ hex out else
         let ls := (Cr.splitLFAll out.dropLast)
         String.intercalate "," (sortStr (ls.map hex))
+  | ["seq", dflt, steps] =>
+    -- steps: `;`-separated, `g<d|t|f>` = GetCredentialHelper for a URL configured default/true/false,
+    -- `f<pairs>` = a fill with these key=value pairs; answer: one `r`(efused) / `a`(ccepted) per fill
+    let ops? : Option (List Cr.CtxOp) := (steps.splitOn ";").mapM fun st =>
+      if st.startsWith "g" then
+        some (Cr.CtxOp.get (if st == "gt" then some true else if st == "gf" then some false else none))
+      else if st.startsWith "f" then
+        let ps := (st.drop 1).toString
+        (if ps == "-" then some [] else (ps.splitOn ",").mapM parsePair).map fun pairs =>
+          Cr.CtxOp.fill (pairs.map fun kv => (kv.1, [kv.2]))
+      else none
+    match ops? with
+    | none => "bad-op"
+    | some ops =>
+      String.intercalate "," ((Cr.ctxRun (dflt == "1") (dflt == "1") ops).map fun o => if o.isSome then "a" else "r")
   | _ => "bad-op"
 
 def parseSource (s : String) : Option Cfg.Source :=
